@@ -320,6 +320,9 @@ class Visitor(ast.NodeVisitor):
         # value assigned to each visited node
         self.recomputed_values = dict()  # type: Dict[ast.AST, Any]
 
+        # number of the comprehensions (and generator expressions) which enclose the node being visited
+        self._comprehension_depth = 0
+
     if sys.version_info < (3, 8):
 
         def visit_Num(self, node: ast.Num) -> Union[int, float]:
@@ -570,37 +573,86 @@ class Visitor(ast.NodeVisitor):
         return result
 
     def visit_BoolOp(self, node: ast.BoolOp) -> Any:
-        """Recursively visit the operands and apply the operation on them."""
-        values = [self.visit(value_node) for value_node in node.values]
+        """
+        Recursively visit the operands and apply the operation on them.
 
-        # Please see "NOTE ABOUT PLACEHOLDERS AND RE-COMPUTATION"
-        if any(value is PLACEHOLDER for value in values):
-            return PLACEHOLDER
-
+        The operands are evaluated one by one and the evaluation stops as soon as the result is determined,
+        exactly as Python evaluates the operation. The operands which Python skipped when it evaluated the condition
+        must not be visited: they are often defined only if the preceding operands hold (or do not hold),
+        *e.g.*, ``len(lst) > 0 and lst[0] > 0``.
+        """
         if isinstance(node.op, ast.And):
-            result = functools.reduce(lambda left, right: left and right, values, True)
+            is_and = True
         elif isinstance(node.op, ast.Or):
-            result = functools.reduce(lambda left, right: left or right, values, True)
+            is_and = False
         else:
             raise NotImplementedError("Unhandled op of {}: {}".format(node, node.op))
+
+        result = None  # type: Optional[Any]
+        saw_placeholder = False
+
+        for value_node in node.values:
+            value = self.visit(value_node)
+
+            # Please see "NOTE ABOUT PLACEHOLDERS AND RE-COMPUTATION"
+            if value is PLACEHOLDER:
+                if self._comprehension_depth == 0:
+                    # We do not know the value of the operand, so we can not know whether Python evaluated
+                    # the remaining operands.
+                    return PLACEHOLDER
+
+                # Within a comprehension, we keep on visiting to collect the values unrelated to the comprehension.
+                saw_placeholder = True
+                continue
+
+            if saw_placeholder:
+                continue
+
+            result = value
+
+            if is_and and not value:
+                break
+
+            if not is_and and value:
+                break
+
+        if saw_placeholder:
+            return PLACEHOLDER
 
         self.recomputed_values[node] = result
         return result
 
     def visit_Compare(self, node: ast.Compare) -> Any:
-        """Recursively visit the comparators and apply the operations on them."""
+        """
+        Recursively visit the comparators and apply the operations on them.
+
+        A chain of comparisons is evaluated link by link and the evaluation stops at the first link which does not
+        hold, exactly as Python evaluates the chain, so that the comparators which Python skipped are not visited.
+        """
         left = self.visit(node=node.left)
 
-        comparators = [self.visit(node=comparator) for comparator in node.comparators]
-
         # Please see "NOTE ABOUT PLACEHOLDERS AND RE-COMPUTATION"
-        if left is PLACEHOLDER or any(
-            comparator is PLACEHOLDER for comparator in comparators
-        ):
-            return PLACEHOLDER
+        saw_placeholder = left is PLACEHOLDER
 
         result = None  # type: Optional[Any]
-        for comparator, op in zip(comparators, node.ops):
+        last_i = len(node.ops) - 1
+        for i, (comparator_node, op) in enumerate(zip(node.comparators, node.ops)):
+            # Python always evaluates the first two operands of a comparison. If we do not know the value of
+            # an operand, we can not know whether Python evaluated the operands which follow it.
+            if saw_placeholder and i > 0 and self._comprehension_depth == 0:
+                return PLACEHOLDER
+
+            comparator = self.visit(node=comparator_node)
+
+            # Please see "NOTE ABOUT PLACEHOLDERS AND RE-COMPUTATION"
+            # (Within a comprehension, we keep on visiting to collect the values unrelated to the comprehension.)
+            if comparator is PLACEHOLDER:
+                saw_placeholder = True
+
+            if saw_placeholder:
+                left = comparator
+                continue
+
             if isinstance(op, ast.Eq):
                 comparison = left == comparator
             elif isinstance(op, ast.NotEq):
@@ -624,12 +676,16 @@ class Visitor(ast.NodeVisitor):
             else:
                 raise NotImplementedError("Unhandled op of {}: {}".format(node, op))
 
-            if result is None:
-                result = comparison
-            else:
-                result = result and comparison
+            result = comparison
+
+            # The truth value of a link is tested only if another link follows (as Python does).
+            if i < last_i and not comparison:
+                break
 
             left = comparator
+
+        if saw_placeholder:
+            return PLACEHOLDER
 
         self.recomputed_values[node] = result
         return result
@@ -985,13 +1041,17 @@ class Visitor(ast.NodeVisitor):
         ):
             self._name_to_value[target_name] = PLACEHOLDER
 
-        self.visit(node.elt)
+        self._comprehension_depth += 1
+        try:
+            self.visit(node.elt)
 
-        for generator in node.generators:
-            self.visit(generator.iter)
+            for generator in node.generators:
+                self.visit(generator.iter)
 
-            for generator_if in generator.ifs:
-                self.visit(generator_if)
+                for generator_if in generator.ifs:
+                    self.visit(generator_if)
+        finally:
+            self._comprehension_depth -= 1
 
         self._name_to_value = old_name_to_value
 
@@ -1012,13 +1072,17 @@ class Visitor(ast.NodeVisitor):
         ):
             self._name_to_value[target_name] = PLACEHOLDER
 
-        self.visit(node.elt)
+        self._comprehension_depth += 1
+        try:
+            self.visit(node.elt)
 
-        for generator in node.generators:
-            self.visit(generator.iter)
+            for generator in node.generators:
+                self.visit(generator.iter)
 
-            for generator_if in generator.ifs:
-                self.visit(generator_if)
+                for generator_if in generator.ifs:
+                    self.visit(generator_if)
+        finally:
+            self._comprehension_depth -= 1
 
         self._name_to_value = old_name_to_value
 
@@ -1041,13 +1105,17 @@ class Visitor(ast.NodeVisitor):
         ):
             self._name_to_value[target_name] = PLACEHOLDER
 
-        self.visit(node.elt)
+        self._comprehension_depth += 1
+        try:
+            self.visit(node.elt)
 
-        for generator in node.generators:
-            self.visit(generator.iter)
+            for generator in node.generators:
+                self.visit(generator.iter)
 
-            for generator_if in generator.ifs:
-                self.visit(generator_if)
+                for generator_if in generator.ifs:
+                    self.visit(generator_if)
+        finally:
+            self._comprehension_depth -= 1
 
         self._name_to_value = old_name_to_value
 
@@ -1070,14 +1138,18 @@ class Visitor(ast.NodeVisitor):
         ):
             self._name_to_value[target_name] = PLACEHOLDER
 
-        self.visit(node.key)
-        self.visit(node.value)
+        self._comprehension_depth += 1
+        try:
+            self.visit(node.key)
+            self.visit(node.value)
 
-        for generator in node.generators:
-            self.visit(generator.iter)
+            for generator in node.generators:
+                self.visit(generator.iter)
 
-            for generator_if in generator.ifs:
-                self.visit(generator_if)
+                for generator_if in generator.ifs:
+                    self.visit(generator_if)
+        finally:
+            self._comprehension_depth -= 1
 
         self._name_to_value = old_name_to_value
 
